@@ -106,7 +106,12 @@ impl FileConfig {
                 "interface" => config.interface = value.as_str().unwrap().to_string(),
                 "batch_size" => config.batch_size = int_value("batch_size", value)?,
                 "seed" => {
-                    let val = value.as_str().unwrap().to_string();
+                    // A hex value made up of decimal digits only is typed as a number by the
+                    // YAML parser; Yaml::Real retains the text exactly as it was written.
+                    let val = match value {
+                        Yaml::Real(text) => text.to_string(),
+                        other => other.as_str().unwrap().to_string(),
+                    };
                     config.seed = HEX
                         .decode(val.as_bytes())
                         .expect("seed value invalid; 'seed' must be a valid hex value");
